@@ -54,8 +54,11 @@ type l2Comp struct {
 	extra  []string // additional, target-specific value names (resolved by the instance)
 	parent string   // list component this element belongs to (no pairs with the parent)
 	noPair bool
-	qClass bool // the code reduces this number modulo q somewhere: 0, q, 2q are one class
-	ed     bool // point component on edwards25519 (where (0,1) is the neutral element, not an off-curve pair)
+	inadmQ bool   // scalars that are 0 mod q are outside the property's domain for this argument (direct curve arithmetic)
+	inadm  string // the whole component is outside the domain (reason), e.g. the prover's own parameters
+	bitlen bool   // modulus whose bit length drives a rejection sampler: class by bit length
+	qClass bool   // the code reduces this number modulo q somewhere: 0, q, 2q are one class
+	ed     bool   // point component on edwards25519 (where (0,1) is the neutral element, not an off-curve pair)
 }
 
 func (c *l2Comp) values() []string {
@@ -79,6 +82,7 @@ type l2Target struct {
 	key   string // the <package>.<Func> part of violation keys
 	comps []*l2Comp
 	pairs string // "" none | "thorough" | "always"
+	inadm string // the whole target is outside the property's domain (reason): enumerated, counted, not executed
 	heavy bool   // scheduling hint only: works on 2048-bit moduli (may meet the long watchdog), run early
 	setup func() *l2Inst
 
@@ -105,8 +109,33 @@ func (t *l2Target) extraVal(comp, val string) (interface{}, bool) {
 }
 
 type l2Case struct {
-	tgt  int
-	repl [][2]string // (component, value name), one or two entries; empty = the honest baseline
+	tgt   int
+	repl  [][2]string // (component, value name), one or two entries; empty = the honest baseline
+	inadm string      // non-empty: outside the domain of the property (reason); counted, not executed
+}
+
+// l2Inadmissible: the property speaks about verifiers and decoders given arbitrary non-nil numbers and (valid)
+// points. Outside that domain (decision of the check's owner, see the evidence field l2_inadmissible):
+// pure helpers and a party's own reconstruction routine; direct curve arithmetic with a scalar that is 0 mod q
+// (the identity is not representable by design - what matters is that no verifier/decoder gets there);
+// ECPoint objects that are not on their curve (only the explicitly unchecked constructor builds them);
+// the prover's own parameters of a function that also proves.
+func l2Inadmissible(t *l2Target, repl [][2]string) string {
+	if t.inadm != "" {
+		return t.inadm
+	}
+	for _, rp := range repl {
+		c := t.comp(rp[0])
+		switch {
+		case c.inadm != "":
+			return c.inadm
+		case c.inadmQ && (rp[1] == "0" || rp[1] == "q" || rp[1] == "2q"):
+			return "direct curve arithmetic with a scalar that is 0 mod q"
+		case c.kind == kPoint && (rp[1] == "zero(0,0)" || rp[1] == "off-curve" || (rp[1] == "neutral(0,1)" && !c.ed)):
+			return "ECPoint that is not on its curve (NewECPointNoCurveCheck only)"
+		}
+	}
+	return ""
 }
 
 func (c *l2Case) isBaseline() bool { return len(c.repl) == 0 }
@@ -116,10 +145,11 @@ func l2BuildCases(tier string) ([]*l2Target, []l2Case) {
 	targets := l2Targets(tier)
 	var cases []l2Case
 	for ti, t := range targets {
-		cases = append(cases, l2Case{tgt: ti}) // the honest call
+		cases = append(cases, l2Case{tgt: ti, inadm: t.inadm}) // the honest call
 		for _, c := range t.comps {
 			for _, v := range c.values() {
-				cases = append(cases, l2Case{tgt: ti, repl: [][2]string{{c.name, v}}})
+				rp := [][2]string{{c.name, v}}
+				cases = append(cases, l2Case{tgt: ti, repl: rp, inadm: l2Inadmissible(t, rp)})
 			}
 		}
 		if t.pairs == "always" || (t.pairs == "thorough" && tier == "thorough") {
@@ -131,7 +161,8 @@ func l2BuildCases(tier string) ([]*l2Target, []l2Case) {
 					}
 					for _, va := range a.values() {
 						for _, vb := range b.values() {
-							cases = append(cases, l2Case{tgt: ti, repl: [][2]string{{a.name, va}, {b.name, vb}}})
+							rp := [][2]string{{a.name, va}, {b.name, vb}}
+							cases = append(cases, l2Case{tgt: ti, repl: rp, inadm: l2Inadmissible(t, rp)})
 						}
 					}
 				}
@@ -242,6 +273,9 @@ func l2Worker(args []string) int {
 	}
 	for k := first; k <= last; k++ {
 		c := &cases[k]
+		if c.inadm != "" {
+			continue // outside the property's domain: counted by the parent, not executed
+		}
 		t := targets[c.tgt]
 		t.once.Do(func() {
 			t.inst = t.setup()
@@ -513,6 +547,12 @@ func (p *l2Parent) runRange(first, last int, soloHard bool) {
 	cur := first
 	noProgress := 0
 	for cur <= last {
+		for cur <= last && p.cases[cur].inadm != "" {
+			cur++ // inadmissible cases are not executed (the worker skips them as well)
+		}
+		if cur > last {
+			return
+		}
 		if time.Now().After(p.deadline) {
 			p.mu.Lock()
 			p.infra = append(p.infra, fmt.Sprintf("time budget: cases %d..%d not executed", cur, last))
@@ -611,6 +651,9 @@ func (p *l2Parent) runRange(first, last int, soloHard bool) {
 			code := -1
 			if pr.cmd.ProcessState != nil {
 				code = pr.cmd.ProcessState.ExitCode()
+			}
+			if code == 0 {
+				cur = last + 1 // the worker went through its whole range (trailing inadmissible cases print nothing)
 			}
 			if cur <= last && code != 3 {
 				p.mu.Lock()
@@ -896,6 +939,16 @@ func RunLayer2(r *core.Run) {
 	r.Set("l2_outcome_histogram", hist)
 	r.Set("l2_baseline_ms", bm)
 	r.Set("l2_cases_enumerated", len(cases))
+	inadm := map[string]int{}
+	nInadm := 0
+	for i := range cases {
+		if cases[i].inadm != "" {
+			inadm[cases[i].inadm]++
+			nInadm++
+		}
+	}
+	r.Set("l2_inadmissible", inadm)
+	r.Count("l2_inadmissible_cases", int64(nInadm))
 	r.Set("l2_pair_cases_executed", pairsExec)
 	r.Set("l2_worker_processes", p.nProcs)
 	r.Set("l2_slow_cases_rerun_alone", p.nSlow)
@@ -903,7 +956,7 @@ func RunLayer2(r *core.Run) {
 	r.Set("l2_distinct_failure_keys", len(firstOf))
 	r.Count("l2_evaluations", int64(executed))
 	r.Count("l2_calls", int64(executed))
-	r.Set("l2_evaluations_executed", executed) // c06.Run sums l2_calls into evaluations
+	r.Set("l2_evaluations_executed", executed)              // c06.Run sums l2_calls into evaluations
 	r.Set("l2_distinct_triples", r.NDistinct("l2_triples")) // c06.Run adds NDistinct("l2_cases") to distinct_nontrivial
 	r.Set("l2_rule", "layer 2: for every exported verifier/decoder one honest call, then every call with exactly one argument or proof component replaced by "+
 		"each value of the component kind's boundary alphabet (numbers: 0,1,q-1,q,q+1,2q,N-1,N,N+1,N^2,2^k for k in {8,63,64,255,256,1023,1024,2047,2048,4095,4096}, "+
@@ -918,8 +971,8 @@ func RunLayer2(r *core.Run) {
 		}
 		r.Cap("layer 2: " + strings.Join(p.infra, " | "))
 	}
-	if executed < len(cases) && os.Getenv("C06L2_ONLY") == "" {
-		r.Cap(fmt.Sprintf("layer 2: %d of %d enumerated cases executed", executed, len(cases)))
+	if executed < len(cases)-nInadm && os.Getenv("C06L2_ONLY") == "" {
+		r.Cap(fmt.Sprintf("layer 2: %d of %d admissible cases executed", executed, len(cases)-nInadm))
 	}
 }
 
